@@ -175,13 +175,13 @@ func (s *System) RunUntil(targetPC uint32, maxCycles uint64) bool {
 	var oa [100]byte
 
 	for cycles := uint64(0); cycles < maxCycles; {
+		if s.GetPC() == targetPC {
+			break
+		}
 		if s.Logger != nil {
 			o := oa[:0]
 			o = s.CPU.DisassembleCurrentPC(o)
 			_, _ = s.Logger.Write(o)
-		}
-		if s.GetPC() == targetPC {
-			break
 		}
 		nCycles, _ := s.CPU.Step()
 		cycles += uint64(nCycles)
